@@ -19,6 +19,12 @@ fn optn(s: &str) -> Option<usize> {
 pub fn rerun(line: &str) -> Option<String> {
     let pre: Vec<&str> = line.split_whitespace().take_while(|t| *t != "=>").collect();
     match pre.as_slice() {
+        ["buildvh", m, e, len, f, e0] => Some(crate::gen::buildvh_line(
+            m.parse().ok()?, e.parse().ok()?, len.parse().ok()?, optn(f), e0.parse().ok()?)),
+        ["buildh", hx, e, m, v, k, e0, m0, v0, k0] => Some(crate::gen::buildh_line(
+            &unhex(hx),
+            crate::common::Opts { ecl: optn(e), mode: optn(m), version: optn(v), mask: optn(k) },
+            crate::common::Opts { ecl: optn(e0), mode: optn(m0), version: optn(v0), mask: optn(k0) })),
         ["buildv", m, e, len, f] => Some(crate::gen::buildv_line(
             m.parse().ok()?,
             e.parse().ok()?,
